@@ -80,6 +80,7 @@ type Ex struct {
 	Srv   *mqtt.Server
 	lst   *simListener
 	nl    *simNetListener
+	wsl   *listeners.Websocket
 	rec   *Recorder
 	Conns []*Conn
 	slots map[int]*Conn
@@ -230,6 +231,10 @@ func (ex *Ex) buildServerOnly() {
 	default:
 		ex.lst = &simListener{id: "sim", done: make(chan struct{})}
 		_ = s.AddListener(ex.lst)
+		ex.wsl = nil
+		if cfg.Listener == "ws" {
+			ex.wsl = listeners.NewWebsocket(listeners.Config{ID: "sim", Address: "sim"})
+		}
 	}
 }
 
@@ -397,8 +402,44 @@ func (ex *Ex) perform(a action) {
 	if last {
 		c.pending = c.pending[1:]
 	}
+	if c.ws && !pp.rawWS {
+		data = ex.wsWrap(c, data, last)
+	}
 	c.deliver(data)
 	synctest.Wait()
+}
+
+// wsWrap turns a slice of the peer's MQTT byte stream into WebSocket binary message(s): possibly several
+// packets in one message, fragmented messages, empty messages and interleaved pings (all from the tape).
+func (ex *Ex) wsWrap(c *Conn, data []byte, last bool) []byte {
+	payload := append([]byte(nil), data...)
+	// several packets in one message
+	for last && len(c.pending) > 0 && c.pending[0].off == 0 && ex.tape.Chance("ws.join", 30, 100) {
+		nx := c.pending[0]
+		c.pending = c.pending[1:]
+		payload = append(payload, nx.data...)
+		ex.H.add(&Ev{Kind: "in", Conn: c.Idx, Op: nx.op, hasOp: true, N: int64(len(nx.data)), Last: true, Pkt: nx.pkt})
+		ex.Stats.Faults["ws.several_packets_in_message"]++
+	}
+	mask := [4]byte{byte(ex.draw("ws.mask", 256)), 0x5a, byte(len(payload)), 0xc3}
+	var out []byte
+	if ex.tape.Chance("ws.empty", 10, 100) {
+		out = append(out, wsFrame(2, true, nil, mask)...)
+		ex.Stats.Faults["ws.empty_message"]++
+	}
+	if len(payload) > 1 && ex.tape.Chance("ws.fragment", 30, 100) {
+		k := 1 + ex.draw("ws.fragat", len(payload)-1)
+		out = append(out, wsFrame(2, false, payload[:k], mask)...)
+		if ex.tape.Chance("ws.ping", 40, 100) {
+			out = append(out, wsFrame(9, true, []byte("p"), mask)...)
+			ex.Stats.Faults["ws.ping_between_fragments"]++
+		}
+		out = append(out, wsFrame(0, true, payload[k:], mask)...)
+		ex.Stats.Faults["ws.fragmented_message"]++
+	} else {
+		out = append(out, wsFrame(2, true, payload, mask)...)
+	}
+	return out
 }
 
 // pump parses new broker output on every connection and lets the simulated clients react.
@@ -408,6 +449,33 @@ func (ex *Ex) pump() {
 		out := c.out
 		parsed := c.parsed
 		c.mu.Unlock()
+		if c.ws {
+			// strip the HTTP 101 response, then the WebSocket framing; MQTT packets are parsed from the
+			// reassembled binary stream
+			if !c.wsHdr {
+				if i := strings.Index(string(out), "\r\n\r\n"); i >= 0 {
+					c.wsHdr = true
+					c.wsRaw = i + 4
+					if !strings.HasPrefix(string(out), "HTTP/1.1 101") {
+						c.wsErr = "upgrade refused: " + strings.SplitN(string(out), "\r\n", 2)[0]
+					}
+				}
+			}
+			if c.wsHdr && c.wsErr == "" {
+				data, used, closed, ctrl, err := wsDeframe(out[c.wsRaw:])
+				c.wsRaw += used
+				c.wsCtrl += ctrl
+				if closed {
+					c.wsClosed = true
+				}
+				if err != nil {
+					c.wsErr = err.Error()
+					ex.H.add(&Ev{Kind: "malformed", Conn: c.Idx, Str: "websocket: " + err.Error()})
+				}
+				c.wsStream = append(c.wsStream, data...)
+			}
+			out = c.wsStream
+		}
 		for parsed < len(out) && !c.malformed {
 			first, body, total, err := refcodec.Frame(out[parsed:])
 			if err == refcodec.ErrIncomplete {
@@ -426,6 +494,9 @@ func (ex *Ex) pump() {
 					seq = m.seq
 					break
 				}
+			}
+			if c.ws && len(c.marks) > 0 {
+				seq = c.marks[len(c.marks)-1].seq // framing hides byte offsets: the latest write
 			}
 			if derr != nil {
 				c.malformed = true
@@ -686,6 +757,14 @@ func (ex *Ex) issue(i int, op *Op) {
 				c.peerClose("refused")
 			}
 			synctest.Wait()
+		} else if ex.lst != nil && !ex.lst.closed && ex.lst.establish != nil && ex.wsl != nil {
+			// the real websocket listener: upgrade handler + wsConn over the simulated connection
+			c.ws = true
+			est := ex.lst.establish
+			wsl := ex.wsl
+			c.handler = ex.sc.Spawn(fmt.Sprintf("c%02d/h", c.Idx), func() {
+				wsl.VerifHandle(est, discardLogger(), &hijackRW{conn: c}, wsUpgradeRequest())
+			})
 		} else if ex.lst != nil && !ex.lst.closed && ex.lst.establish != nil {
 			est := ex.lst.establish
 			c.handler = ex.sc.Spawn(fmt.Sprintf("c%02d/h", c.Idx), func() { _ = est("sim", c) })
@@ -706,6 +785,13 @@ func (ex *Ex) issue(i int, op *Op) {
 			return
 		}
 		c.pending = append(c.pending, &pendingPkt{data: op.Raw, op: i})
+	case "ws_text": // a non-binary websocket message
+		c := ex.connOf(op.Slot)
+		if c == nil || c.isClosed() || !c.ws {
+			ex.H.add(&Ev{Kind: "skipped", Conn: -1, Op: i, hasOp: true})
+			return
+		}
+		c.pending = append(c.pending, &pendingPkt{data: wsFrame(1, true, []byte("not binary"), [4]byte{1, 2, 3, 4}), op: i, rawWS: true})
 	case "ack": // manual acknowledgement of the N-th pending inbound message
 		c := ex.connOf(op.Slot)
 		if c == nil || c.isClosed() || len(c.unacked) == 0 {
